@@ -165,9 +165,7 @@ theorem C03_entryOf_total (names : List String) (props : List (Prop' σ)) (disc 
     have hlt : d.1 < props.length := hr d (List.mem_cons_self)
     have hlt' : d.1 < names.length := hlen ▸ hlt
     obtain ⟨c, hc⟩ : ∃ c, classification props d.1 = some c := by
-      unfold classification
-      rw [List.getElem?_eq_getElem hlt]
-      cases hx : props[d.1].exp <;> simp
+      cases hx : props[d.1].exp <;> simp [classification, List.getElem?_eq_getElem hlt, hx]
     refine ⟨{ name := names[d.1], cls := c, path := d.2 } :: l, ?_, ?_⟩
     · simp [entryOf, List.getElem?_eq_getElem hlt', hc, hl]
     · simp only [List.map_cons, List.nodup_cons]
@@ -187,8 +185,7 @@ theorem C03_entryOf_total (names : List String) (props : List (Prop' σ)) (disc 
           rw [← hent, ← hn']
         · cases hent
       have hidx : d'.1 = d.1 := by
-        have := (List.Nodup.getElem_inj_iff hn (hi := hlt2) (hj := hlt')).1 (by rw [← hname', hname])
-        exact this
+        exact (List.getElem_inj hn).mp (by rw [← hname', hname])
       exact hd.1 (hidx ▸ List.mem_map_of_mem hd')
 
 /-- **every discovery is listed exactly once, in strictly ascending name order**: the summary handed to
@@ -252,7 +249,8 @@ theorem C02_report_sometimes_never_counterexample (names : List String) (props :
     · intro hx
       simp only [hp, hx, Option.some.injEq] at hcls
       refine ⟨hcls.symm, ?_⟩
-      simp [entryLines, ← hcls, clsStr, hpath]
+      simp only [entryLines, List.head?_cons, ← hcls, clsStr, hpath, toString, String.append_assoc]
+      congr 3
     · intro hx
       have : e.cls = .counterexample := by
         cases hexp : pr.exp <;> simp only [hp, hexp, Option.some.injEq] at hcls
@@ -260,7 +258,8 @@ theorem C02_report_sometimes_never_counterexample (names : List String) (props :
         · exact hcls.symm
         · exact absurd hexp hx
       refine ⟨this, ?_⟩
-      simp [entryLines, this, clsStr, hpath]
+      simp only [entryLines, List.head?_cons, this, clsStr, hpath, toString, String.append_assoc]
+      congr 3
 
 /-- the number of actions of an execution is its number of states minus one -/
 theorem C19_exec_actions_length {M : Sys σ Nat} {s : σ} {p : Path σ Nat} (h : ExecFrom M s p) :
@@ -279,18 +278,18 @@ theorem C19_report_path_shape {M : Sys σ Nat} (key : σ → Nat) {s : σ} (e : 
   simp only [actionLines, entryLines, encode, List.length_map, List.length_cons, List.length_append, List.length_nil]
   omega
 
-/-- **the paths of a real report**: `discoveries()` rebuilds every stored fingerprint path; if that succeeds, property by
-    property the reported path is an execution of the model whose `Fingerprint path:` line is exactly the stored
-    fingerprint path. -/
+/-- **the paths of a real report**: `discoveries()` rebuilds every stored fingerprint path; if that succeeds (no panic)
+    the rebuilt discoveries are, in the same order and for the same properties, executions of the model whose
+    `Fingerprint path:` line (`encode`) is exactly the stored fingerprint path. -/
 theorem C19_report_fingerprint_line (M : Sys σ Nat) (key : σ → Nat) (stored : List (Nat × List Nat))
     (disc : List (Nat × Path σ Nat)) (h : rebuild M key stored = some disc) :
-    List.Forall₂ (fun s d => d.1 = s.1 ∧ IsExec M d.2 ∧ encode key d.2 = s.2) stored disc := by
+    stored = disc.map (fun d => (d.1, encode key d.2)) ∧ ∀ d ∈ disc, IsExec M d.2 := by
   unfold rebuild at h
   induction stored generalizing disc with
   | nil =>
     simp only [List.mapM_nil] at h
     cases h
-    exact List.Forall₂.nil
+    exact ⟨rfl, by simp⟩
   | cons s ss ih =>
     rw [List.mapM_cons] at h
     cases hf : fromFingerprints M key s.2 with
@@ -302,7 +301,13 @@ theorem C19_report_fingerprint_line (M : Sys σ Nat) (key : σ → Nat) (stored 
         simp [hf, hr] at h
         subst h
         obtain ⟨he, hk⟩ := fromFingerprints_sound M key s.2 p hf
-        exact List.Forall₂.cons ⟨rfl, he, hk⟩ (ih rest hr)
+        obtain ⟨h1, h2⟩ := ih rest hr
+        refine ⟨?_, ?_⟩
+        · simp only [List.map_cons, hk, ← h1]
+        · intro d hd
+          rcases List.mem_cons.1 hd with rfl | hd
+          · exact he
+          · exact h2 d hd
 
 /-! ### the hypotheses are satisfiable, and the text on a concrete instance -/
 
@@ -319,6 +324,6 @@ example : WellFormed exNames exProps exDisc :=
 /-- name order (`Zed` < `p10` < `p2`) is neither the index order nor the numeric order -/
 example : reportText id exNames exProps { states := 7, unique := 4, depth := 3 } exDisc =
     "Done. states=7, unique=4, depth=3, sec=_|Discovered \"Zed\" counterexample Path[2]:|- 0|- 0|Fingerprint path: 0/1/3|Discovered \"p10\" example Path[1]:|- 0|Fingerprint path: 0/1|Discovered \"p2\" counterexample Path[1]:|- 1|Fingerprint path: 0/2" := by
-  decide
+  set_option maxRecDepth 20000 in decide
 
 end SR.CReport
